@@ -51,7 +51,8 @@ func (c20) ID() string { return "C20" }
 func (c20) Rule() string {
 	return "four monitors on the exported layers: MQ (complete enumeration of all (bit,context) sequences up to a length over 2 contexts for several initial-state variants, batched, distinct by construction; seeded random/adversarial sequences up to 1e5 symbols, 1..19 contexts, bias 0..100%), " +
 		"T1 (EncodeLayered -> DecodeLayeredWithMode driven with the cumulative pass lengths the encoder reports, all 64 style combinations x block shapes x orientations; style 0 also through DecodeWithBitplane), 5/3 DWT (complete enumeration of 1-D signals over {-2..2} for both parities; 2-D multilevel with origin parity), RCT (complete [-8..8]^3, random triples within +-2^28). " +
-		"non-trivial: the encoder produced output that the decoder consumed and the results were compared (all-zero T1 blocks, for which EncodeLayered emits nothing, are counted trivial); distinct = distinct descriptor"
+		"non-trivial: the encoder produced output that the decoder consumed and the results were compared (all-zero T1 blocks, for which EncodeLayered emits nothing, are counted trivial); distinct = distinct descriptor" +
+		" (t1enum) complete execution of all rows and columns of 6 samples over {0,-2,2,-1,32,34} (six bit-planes: the two lowest are raw-coded under the bypass style) for every LAZY+TERMALL style and a quarter (thorough: all) of the other decodable styles"
 }
 func (c20) Assumptions() []string {
 	return []string{"round-trip oracle only: compares the decoder's output with the encoder's input, no reference implementation involved"}
@@ -133,6 +134,26 @@ func (c20) Build(tier string, seed uint64) []any {
 			cs = append(cs, &c20Case{Gen: "t1", W: w, H: h, Style: style, Orient: r.Intn(4), MagBit: mb, Dens: gen.Pick(r, 1, 10, 50, 100), CSeed: r.U64()})
 		}
 	}
+	// (t1enum) complete execution of all rows / columns of 6 samples over {0,-2,2,-1,32,34}
+	// for the decodable styles (quick: every LAZY+TERMALL style and every fourth other one)
+	for style := 0; style < 64; style++ {
+		lazy, termall := style&t1.CblkStyleLazy != 0, style&t1.CblkStyleTermAll != 0
+		if lazy && !termall {
+			continue // known finding t1-lazy-without-termall
+		}
+		if !th && !lazy && style%4 != int(seed%4) {
+			continue
+		}
+		for shape := 0; shape < 2; shape++ {
+			for pfx := range c20EnumAlphabet {
+				c := &c20Case{Gen: "t1enum", W: 6, H: 1, N: 6, Style: style, Orient: (style + shape + pfx) % 4, Prefix: pfx}
+				if shape == 1 {
+					c.W, c.H = 1, 6
+				}
+				cs = append(cs, c)
+			}
+		}
+	}
 	// DWT 1-D enumeration
 	for L := 1; L <= dwtMax; L++ {
 		for _, even := range []bool{true, false} {
@@ -187,6 +208,8 @@ func (c20) Exec(d any) mon.Result {
 		r = c20MQRand(c)
 	case "t1":
 		r = c20T1(c)
+	case "t1enum":
+		r = c20T1Enum(c)
 	case "dwt-enum":
 		r = c20DWTEnum(c)
 	case "dwt":
@@ -382,6 +405,47 @@ func c20T1Coeffs(c *c20Case) ([]int32, int) {
 
 func c20T1(c *c20Case) mon.Result {
 	coeffs, nz := c20T1Coeffs(c)
+	return c20T1Block(c, coeffs, nz)
+}
+
+var c20EnumAlphabet = []int32{0, -2, 2, -1, 32, 34}
+
+// c20T1Enum executes every block of N samples (one row or one column) over the alphabet
+// {0,-2,2,-1,32,34} whose first sample is alphabet[Prefix]: six bit-planes, so that with the
+// bypass style the two lowest planes are raw-coded, with samples that become significant there
+// next to samples that are refined there.
+func c20T1Enum(c *c20Case) mon.Result {
+	a := c20EnumAlphabet
+	n := c.N
+	total := pow(len(a), n-1)
+	coeffs := make([]int32, n)
+	agg := mon.Hold()
+	agg.Cell(fmt.Sprintf("t1-style=%02d", c.Style))
+	for i := 0; i < total; i++ {
+		coeffs[0] = a[c.Prefix]
+		v, nz := i, 0
+		for k := 1; k < n; k++ {
+			coeffs[k] = a[v%len(a)]
+			v /= len(a)
+		}
+		for _, x := range coeffs {
+			if x != 0 {
+				nz++
+			}
+		}
+		r := c20T1Block(c, append([]int32(nil), coeffs...), nz)
+		if r.V == mon.Violated {
+			r.Msg = fmt.Sprintf("block %v (%dx%d): %s", coeffs, c.W, c.H, r.Msg)
+			r.Sub = i + 1
+			r.Cells = agg.Cells
+			return r
+		}
+	}
+	agg.Sub = total
+	return agg
+}
+
+func c20T1Block(c *c20Case, coeffs []int32, nz int) mon.Result {
 	in := append([]int32(nil), coeffs...)
 	enc := t1.NewT1Encoder(c.W, c.H, c.Style)
 	enc.SetOrientation(c.Orient)
